@@ -84,6 +84,7 @@ type Contract struct {
 	GhostEntry []Clause // "ghost_entry x.f = expr": ghost assignments performed at function entry
 	GhostSet  []Clause // "ghost_assign x.f = expr": ghost assignments performed at every normal exit
 	GhostAfter []Clause // "ghost_after callee x.f = expr": performed after each direct call of a matching callee
+	Focus     []string // "focus name...": thin contract - only the obligations of the named clauses (and the vacuity guards) are claimed
 }
 
 type PureFn struct {
@@ -485,6 +486,11 @@ func (db *SpecDB) LoadFile(path, pkgPath string) error {
 			cur.GhostAfter = append(cur.GhostAfter, Clause{Kind: word, Name: w3, Text: r3, File: path, Line: ln})
 		case "uses":
 			cur.Uses = append(cur.Uses, strings.Fields(rest)...)
+		case "focus":
+			// thin contract: of all the obligations the body generates only those that belong to the named clauses
+			// (an ensures clause of this function, or a named requires clause of a callee) are claimed, together with
+			// the vacuity guards and contract-binding (spec) obligations; everything else is generated but not claimed
+			cur.Focus = append(cur.Focus, strings.Fields(rest)...)
 		default:
 			return fmt.Errorf("%s:%d: unknown clause %q", path, ln, word)
 		}
